@@ -368,6 +368,51 @@ def gen_sequence_cases(g, rng, n=12):
     return cases
 
 
+def flag_sequences(g, rng, n=8, first_seq=1000):
+    """State kept between calls, second family: the same dictionary asked twice under different switches (allow_custom
+    then strict, interoperability then strict, and the reverse orders), and a valid object right after a call that
+    FAILED -- each sequence in one worker process, in order; the model is stateless, so any carry-over shows."""
+    cases = []
+    top21 = [cid for cid in g.classes if is_toplevel(g, cid) and g.classes[cid]["ver"] == "2.1" and g.classes[cid]["family"] in ("sdo", "sro")]
+    for k in range(n):
+        cid = rng.choice(top21)
+        o = g.obj(cid, 0, {"safe": True}, optional_p=0.3)
+        custom = dict(o, x_custom_prop="v")
+        bad = dict(o)
+        bad["id"] = "not-an-id"
+        form = k % 4
+        if form == 0:
+            steps = [(custom, True, False), (custom, False, False), (o, False, False)]
+        elif form == 1:
+            steps = [(o, False, False), (custom, True, False), (o, False, False), (custom, False, False)]
+        elif form == 2:
+            steps = [(bad, False, False), (o, False, False), (bad, True, False), (o, False, False)]
+        else:
+            steps = [(o, False, True), (o, False, False), (custom, False, True), (custom, False, False)]
+        for step, (d, allow, interop) in enumerate(steps):
+            cases.append({"op": "parse", "cid": cid, "data": d, "allow": allow, "interop": interop, "seq": first_seq + k,
+                          "meta": {"origin": "sequence", "ckind": "flag-sequence-%d" % form, "cid": cid, "step": step}})
+    return cases
+
+
+def argument_forms(cases, rng, share=0.12):
+    """The same parse calls through the other public argument forms: JSON text, a text file object, a bytes file
+    object, and with the version given explicitly (the model's request is the same)."""
+    out = []
+    for c in cases:
+        if c["op"] != "parse" or c.get("py") or c.get("seq") is not None or rng.random() >= share:
+            continue
+        d = clone_case(c)
+        d["form"] = rng.choice(["text", "file", "bytes-file"])
+        d["meta"] = dict(c["meta"], ckind=c["meta"].get("ckind", "-"), form=d["form"])
+        out.append(d)
+    return out
+
+
+def clone_case(c):
+    return {k: (clone(v) if k == "data" else v) for k, v in c.items()}
+
+
 def run_impl_cases(cases, want_json=True):
     send = []
     for c in cases:
